@@ -564,6 +564,31 @@ func (w *world) resetMax() {
 	w.mu.Unlock()
 }
 
+// connectWithEvent issues Connect(name) while a ServerPreConnectEvent subscriber redirects the request to server
+// `to` (e.Allow(to)) or, with to == "", denies it.
+func (w *world) connectWithEvent(name, to string) string {
+	var target proxy.RegisteredServer
+	if to != "" {
+		if target = w.rig.Proxy.Server(to); target == nil {
+			return "noserver"
+		}
+	}
+	w.mu.Lock()
+	w.preConnect = func(e *proxy.ServerPreConnectEvent) {
+		if target != nil {
+			e.Allow(target)
+		} else {
+			e.Deny()
+		}
+	}
+	w.mu.Unlock()
+	res := w.connect(name)
+	w.mu.Lock()
+	w.preConnect = nil
+	w.mu.Unlock()
+	return res
+}
+
 // connectDeadline issues Connect with a short deadline.
 func (w *world) connectDeadline(name string, d time.Duration) string {
 	srv := w.rig.Proxy.Server(name)
